@@ -325,8 +325,8 @@ class Part(object):
             measures[0][1] - measures[0][0]
             < self.time_signature_map(0)[0] * divs_per_beat
         ):
-            measures[0][0] = (
-                measures[0][1] - self.time_signature_map(0)[0] * divs_per_beat
+            measures[0][0] = measures[0][1] - np.round(
+                self.time_signature_map(0)[0] * divs_per_beat
             )
 
         if len(measures) == 0:  # no measures in the piece
@@ -384,8 +384,8 @@ class Part(object):
             measures[0][1] - measures[0][0]
             < self.time_signature_map(0)[0] * divs_per_beat
         ):
-            measures[0][0] = (
-                measures[0][1] - self.time_signature_map(0)[0] * divs_per_beat
+            measures[0][0] = measures[0][1] - np.round(
+                self.time_signature_map(0)[0] * divs_per_beat
             )
 
         if len(measures) == 0:  # no measures in the piece
